@@ -113,6 +113,19 @@ class ExecInstruction(MichelsonInstruction, prim='EXEC'):
         return cls(item)
 
 
+def strip_type_annots(ty: Type[MichelsonType]) -> Type[MichelsonType]:
+    """Rebuild the type with all the annotations dropped (recursively)."""
+
+    def strip(expr):
+        if isinstance(expr, list):
+            return [strip(item) for item in expr]
+        if isinstance(expr, dict):
+            return {k: strip(v) for k, v in expr.items() if k != 'annots'}
+        return expr
+
+    return MichelsonType.match(strip(ty.as_micheline_expr()))
+
+
 class ApplyInstruction(MichelsonInstruction, prim='APPLY'):
     @classmethod
     def execute(cls, stack: MichelsonStack, stdout: List[str], context: AbstractContext):
@@ -124,7 +137,8 @@ class ApplyInstruction(MichelsonInstruction, prim='APPLY'):
 
         new_value = MichelineSequence.create_type(
             args=[
-                PushInstruction.create_type(args=[left_type, left.to_literal()]),
+                # NOTE: captured type is rendered without annotations
+                PushInstruction.create_type(args=[strip_type_annots(left_type), left.to_literal()]),
                 PairInstruction,
                 lambda_.value,
             ]
